@@ -241,8 +241,24 @@ def _dump_shard(arg, _depth=0):
         for t in texts:
             b = t.encode("utf-8") if isinstance(t, str) else t
             f.write(b.hex() + "\n")
-    p = subprocess.run([binary, "--verif-" + mode, ip, op], env={}, stdin=subprocess.DEVNULL,
-                       stdout=subprocess.PIPE, stderr=subprocess.PIPE, timeout=600, preexec_fn=_limits)
+    try:
+        p = subprocess.run([binary, "--verif-" + mode, ip, op], env={}, stdin=subprocess.DEVNULL,
+                           stdout=subprocess.PIPE, stderr=subprocess.PIPE, timeout=60 if len(texts) > 1 else 8, preexec_fn=_limits)
+    except subprocess.TimeoutExpired:
+        # the front end does not come back on some input of this shard: run the inputs one at a time
+        # (a single dump takes milliseconds); after a few confirmed hangs the rest of the shard is skipped
+        if len(texts) == 1:
+            return ["hang"]
+        out, hangs = [], 0
+        for t in texts:
+            if hangs >= 3:
+                out.append("skipped")
+                continue
+            rec = _dump_shard((mode, [t], binary), _depth + 1)[0]
+            if rec == "hang":
+                hangs += 1
+            out.append(rec)
+        return out
     if p.returncode != 0:
         raise Inconclusive("dump hook exited %d: %s" % (p.returncode, p.stderr[-500:]))
     with open(op) as f:
